@@ -5,6 +5,7 @@
 //! `call::<B, L>(op, args)` function that `define_ops!` generates per group; universes,
 //! reference models, comparison, evidence and replay work on `V`, limb vectors and BigUint.
 
+pub mod refcodec;
 pub mod runner;
 pub mod universe;
 pub mod v;
